@@ -77,6 +77,7 @@ class PyCdlibIO(io.RawIOBase):
             data = self.readall()
         else:
             readsize = min(self._length - self._offset, size)
+            self._fp.seek(self._startpos + self._offset)
             data = self._fp.read(readsize)
             self._offset += readsize
 
@@ -98,6 +99,7 @@ class PyCdlibIO(io.RawIOBase):
 
         readsize = self._length - self._offset
         if readsize > 0:
+            self._fp.seek(self._startpos + self._offset)
             data = self._fp.read(readsize)
             self._offset += readsize
         else:
@@ -115,6 +117,7 @@ class PyCdlibIO(io.RawIOBase):
             mv = memoryview(b)
             m = mv.cast('B')
             readsize = min(readsize, len(m))
+            self._fp.seek(self._startpos + self._offset)
             data = self._fp.read(readsize)
             n = len(data)
             m[:n] = data
